@@ -39,7 +39,7 @@ use std::time::{Duration, Instant};
 pub const META: PropMeta = PropMeta {
     id: "C12",
     level: "exploration",
-    rule: "case = configuration {timeout in Zero|Ms(1..40)|Long(400ms)|None} x {0..4 timers: expired, +1..40ms, equal to the timeout, later than the timeout, far (1h), Duration::MAX, inserted-then-removed (before or after its deadline passed), inserted-then-disabled, armed-then-re-armed by set_deadline+update (old/new deadline past or future)} x {0..5 idle sources: ping live/dead, channel live/dead, executor live/scheduler dropped, stream ended/pending, Generic EMPTY/READ quiet, disabled source with pending ping; live ones optionally used once during warm-up} x optional helper thread (ping|channel send|LoopSignal::wakeup|no-op signal to the loop thread, after 5..25ms); one measured dispatch per case after warm-up, optionally followed by a second measured dispatch (0..40 ms) judged against the timers still armed then (lower bound exact, limiting timer fired, no timer fires twice, upper bound with slack). non-trivial: a follow-up dispatch had to wait although a former / re-armed / already fired timer existed, or (timeout is Some and >= 1 live timer, or a dead-peer source is present) and the dispatch had to wait (L > 0, L = min(timeout, earliest deadline - t_before)). distinct: fingerprint of the normalised configuration",
+    rule: "case = configuration {timeout in Zero|Ms(1..40)|Long(400ms)|None} x {0..4 timers: expired, +1..40ms, equal to the timeout, later than the timeout, far (1h), Duration::MAX, inserted-then-removed (before or after its deadline passed), inserted-then-disabled, armed-then-re-armed by set_deadline+update (old/new deadline past or future), overdue timer whose callback re-arms it with ToDuration(period)} x {0..5 idle sources: ping live/dead, channel live/dead, executor live/scheduler dropped, stream ended/pending, Generic EMPTY/READ quiet, disabled source with pending ping; live ones optionally used once during warm-up} x optional helper thread (ping|channel send|LoopSignal::wakeup|no-op signal to the loop thread, after 5..25ms); one measured dispatch per case after warm-up, optionally followed by a second measured dispatch (0..40 ms) judged against the timers still armed then (lower bound exact, limiting timer fired, no timer fires twice, upper bound with slack). non-trivial: a follow-up dispatch had to wait although a former / re-armed / already fired timer existed, or (timeout is Some and >= 1 live timer, or a dead-peer source is present) and the dispatch had to wait (L > 0, L = min(timeout, earliest deadline - t_before)). distinct: fingerprint of the normalised configuration",
     assumptions: &[
         "std::time::Instant and the timerfd used by polling both read CLOCK_MONOTONIC; hrtimers never expire early",
         "upper bounds are scheduling-latency bounds: 60 ms slack, only asserted when the same configuration misses 3 times in a row",
@@ -108,6 +108,10 @@ pub enum TimerSpec {
     /// set_deadline(t0 + new_ms) + LoopHandle::update (both signed, -40..=40; <= 0: in the past):
     /// only the new deadline is armed
     Rearmed { old_ms: i8, new_ms: i8 },
+    /// overdue by ago_ms (0..=40) when the measured dispatch starts; its callback returns
+    /// TimeoutAction::ToDuration(period_ms) the first time (then Drop): after firing (late) it is armed for
+    /// "fire time + period", which is what a follow-up dispatch has to wait for
+    Periodic { ago_ms: u8, period_ms: u8 },
 }
 
 #[derive(Serialize, Deserialize, Debug, Clone, Copy, Hash, PartialEq, Eq)]
@@ -189,6 +193,7 @@ impl TimerSpec {
             TimerSpec::Equal => t,
             TimerSpec::Later { ms } => t.map(|t| t + ms as i64),
             TimerSpec::Rearmed { new_ms, .. } => Some(new_ms as i64),
+            TimerSpec::Periodic { ago_ms, .. } => Some(-(ago_ms as i64)),
             TimerSpec::Far | TimerSpec::Never | TimerSpec::Removed { .. } | TimerSpec::RemovedOverdue { .. } | TimerSpec::Disabled { .. } => None,
         }
     }
@@ -260,6 +265,7 @@ pub fn normalise(c: &Case) -> Case {
             TimerSpec::RemovedOverdue { ago_ms } => TimerSpec::RemovedOverdue { ago_ms: ago_ms.min(40) },
             TimerSpec::Disabled { ms } => TimerSpec::Disabled { ms: ms.clamp(-40, 40) },
             TimerSpec::Rearmed { old_ms, new_ms } => TimerSpec::Rearmed { old_ms: old_ms.clamp(-40, 40), new_ms: new_ms.clamp(-40, 40) },
+            TimerSpec::Periodic { ago_ms, period_ms } => TimerSpec::Periodic { ago_ms: ago_ms.min(40), period_ms: period_ms.clamp(5, 40) },
             o => o,
         };
     }
@@ -300,18 +306,23 @@ fn tmo_strategy() -> impl Strategy<Value = Tmo> {
 }
 
 fn timer_strategy() -> impl Strategy<Value = TimerSpec> {
-    prop_oneof![
+    // two nested unions: prop_oneof! boxes (and loses Sync) beyond 10 arms
+    let armed = prop_oneof![
         5 => (1u8..=40).prop_map(|ms| TimerSpec::At { ms }),
         2 => (0u8..=40).prop_map(|ago_ms| TimerSpec::Expired { ago_ms }),
         2 => Just(TimerSpec::Equal),
         2 => (1u8..=40).prop_map(|ms| TimerSpec::Later { ms }),
         3 => Just(TimerSpec::Far),
         1 => Just(TimerSpec::Never),
+    ];
+    let history = prop_oneof![
         2 => (1u8..=40).prop_map(|ms| TimerSpec::Removed { ms }),
         2 => (0u8..=40).prop_map(|ago_ms| TimerSpec::RemovedOverdue { ago_ms }),
         2 => (-40i8..=40).prop_map(|ms| TimerSpec::Disabled { ms }),
         4 => (-40i8..=40, -40i8..=40).prop_map(|(old_ms, new_ms)| TimerSpec::Rearmed { old_ms, new_ms }),
-    ]
+        3 => (0u8..=40, 5u8..=40).prop_map(|(ago_ms, period_ms)| TimerSpec::Periodic { ago_ms, period_ms }),
+    ];
+    prop_oneof![15 => armed, 13 => history]
 }
 
 fn idle_strategy() -> impl Strategy<Value = Idle> {
@@ -706,7 +717,7 @@ fn run_once(c: &Case) -> Obs {
     for (i, spec) in c.timers.iter().enumerate() {
         let deadline = match *spec {
             TimerSpec::At { ms } | TimerSpec::Removed { ms } => Some(t0 + Duration::from_millis(ms as u64)),
-            TimerSpec::Expired { ago_ms } | TimerSpec::RemovedOverdue { ago_ms } => {
+            TimerSpec::Expired { ago_ms } | TimerSpec::RemovedOverdue { ago_ms } | TimerSpec::Periodic { ago_ms, .. } => {
                 Some(t0.checked_sub(Duration::from_millis(ago_ms as u64)).unwrap_or(t0))
             }
             TimerSpec::Disabled { ms } => Some(signed(ms)),
@@ -721,9 +732,16 @@ fn run_once(c: &Case) -> Obs {
             None => Timer::from_duration(Duration::MAX),
         };
         let deadline = timer.current_deadline();
+        let mut period = match *spec {
+            TimerSpec::Periodic { period_ms, .. } => Some(Duration::from_millis(period_ms as u64)),
+            _ => None,
+        };
         let disp = calloop::Dispatcher::new(timer, move |_, _, t: &mut Trace| {
             t.push(Src::Timer(i));
-            TimeoutAction::Drop
+            match period.take() {
+                Some(p) => TimeoutAction::ToDuration(p),
+                None => TimeoutAction::Drop,
+            }
         });
         let tok = h.register_dispatcher(disp.clone()).expect("insert timer");
         match *spec {
@@ -876,6 +894,7 @@ fn judge(c: &Case, o: &Obs) -> Judgement {
             TimerSpec::Never => "timer:never",
             TimerSpec::Removed { .. } => "timer:removed",
             TimerSpec::RemovedOverdue { .. } => "timer:removed_overdue",
+            TimerSpec::Periodic { .. } => "timer:overdue_rearming_by_duration",
             TimerSpec::Disabled { ms } if ms <= 0 => "timer:disabled_overdue",
             TimerSpec::Disabled { .. } => "timer:disabled",
             TimerSpec::Rearmed { old_ms, new_ms } => match (old_ms <= 0, new_ms <= 0) {
@@ -969,9 +988,16 @@ fn judge(c: &Case, o: &Obs) -> Judgement {
     }
 
     // ---- a timer never fires before its deadline (whatever ended the wait): exact ----------------
-    for (src, t) in o.trace.iter().chain(o.follow.iter().flat_map(|f| f.2.iter())) {
+    for (n, (src, t)) in o.trace.iter().chain(o.follow.iter().flat_map(|f| f.2.iter())).enumerate() {
         if let Src::Timer(i) = src {
-            if let Some(Some(d)) = o.deadlines.get(*i) {
+            // second firing of a periodic timer: its deadline is (first callback instant + period) or later
+            let rearmed = match c.timers.get(*i) {
+                Some(TimerSpec::Periodic { period_ms, .. }) if n >= o.trace.len() => {
+                    o.trace.iter().find(|(s, _)| *s == Src::Timer(*i)).map(|(_, at)| *at + Duration::from_millis(*period_ms as u64))
+                }
+                _ => None,
+            };
+            if let Some(d) = rearmed.or_else(|| o.deadlines.get(*i).copied().flatten()).as_ref() {
                 if *t < *d {
                     j.hard.push(
                         Violation::new(
@@ -1177,8 +1203,16 @@ fn judge(c: &Case, o: &Obs) -> Judgement {
             let elapsed2 = *a2 - *b2;
             let follow_t = Duration::from_millis(c.follow.unwrap_or(0) as u64);
             // still armed: live deadlines whose timer did not fire in the first dispatch
-            let live2: Vec<(usize, Instant)> =
+            let mut live2: Vec<(usize, Instant)> =
                 o.deadlines.iter().enumerate().filter_map(|(i, d)| d.map(|d| (i, d))).filter(|(i, _)| !fired(*i)).collect();
+            // a periodic timer that fired in the first dispatch re-armed itself for (callback instant + period) or later
+            for (i, t) in c.timers.iter().enumerate() {
+                if let TimerSpec::Periodic { period_ms, .. } = t {
+                    if let Some((_, at)) = o.trace.iter().find(|(s, _)| *s == Src::Timer(i)) {
+                        live2.push((i, *at + Duration::from_millis(*period_ms as u64)));
+                    }
+                }
+            }
             let earliest2 = live2.iter().map(|(_, d)| *d).min();
             let l2 = earliest2.map_or(follow_t, |d| follow_t.min(d.saturating_duration_since(*b2)));
             let unexpected2 = trace2
